@@ -22,23 +22,24 @@ type VModel struct {
 }
 
 type SpecEnv struct {
-	x         *Explorer
-	st        *State
-	vars      map[string]Val
-	oldVars   map[string]Val
-	oldHeap   map[string]*Term
-	frame     *Frame
-	con       *Contract
-	pkg       string
-	bound     map[string]*Term
-	iterHeap  map[string]*Term // state at the start of the current loop iteration, for iter(e)
-	iterCells map[*ssa.Alloc]Val
-	inIter    bool
-	goal      bool // evaluating something to be proved (skolemise positive foralls)
-	neg       bool // current polarity is negative
-	inOld     bool
-	callK     int64   // at a call site: references above this were allocated by the callee
-	univ      []*Term // enclosing bound variables that stay quantified (skolems below them are functions)
+	x           *Explorer
+	st          *State
+	vars        map[string]Val
+	oldVars     map[string]Val
+	oldHeap     map[string]*Term
+	frame       *Frame
+	con         *Contract
+	pkg         string
+	bound       map[string]*Term
+	iterHeap    map[string]*Term // state at the start of the current loop iteration, for iter(e)
+	iterCells   map[*ssa.Alloc]Val
+	inIter      bool
+	goal        bool // evaluating something to be proved (skolemise positive foralls)
+	neg         bool // current polarity is negative
+	inOld       bool
+	entryParams bool    // postconditions: a parameter name denotes the value the caller passed, even if the body reassigned it
+	callK       int64   // at a call site: references above this were allocated by the callee
+	univ        []*Term // enclosing bound variables that stay quantified (skolems below them are functions)
 }
 
 func (x *Explorer) specEnv(st *State, f *Frame, con *Contract) *SpecEnv {
@@ -337,6 +338,11 @@ func (env *SpecEnv) ident(e *SExpr) Val {
 	}
 	if v, ok := env.st.ghosts[n]; ok {
 		return v
+	}
+	if env.entryParams {
+		if v, ok := env.oldVars[n]; ok {
+			return v
+		}
 	}
 	if !env.inOld {
 		if v, ok := env.lookupLocal(n); ok {
